@@ -81,7 +81,7 @@ def deep_copy(v):
 
 BUILTIN_ENUMS = {
     "Option": ["None", "Some"], "Result": ["Ok", "Err"], "Ordering": ["Less", "Equal", "Greater"],
-    "ControlFlow": ["Continue", "Break"],
+    "ControlFlow": ["Continue", "Break"], "Bound": ["Included", "Excluded", "Unbounded"],
 }
 
 
